@@ -32,6 +32,19 @@ def _key_obligations(mi, fn):
     if len(pats) != 1 or not isinstance(pats[0].args[0], ast.Constant) or not isinstance(pats[0].args[0].value, str):
         raise SpecInapplicable("re.split(<literal>, ...) not found in name_natural_key")
     pattern = pats[0].args[0].value
+    # re.split(pattern, string, maxsplit=0, flags=0): a third positional argument or maxsplit= limits the number of
+    # splits, after which the rest of the name stays one text token - "every run of digits is one token" is then false for
+    # names with more tokens than the limit.  It is taken out of the shape and made an obligation of its own.
+    call = pats[0]
+    limit = None
+    if len(call.args) == 3:
+        limit = call.args[2]
+        call.args = call.args[:2]
+    for kw in list(call.keywords):
+        if kw.arg == "maxsplit":
+            limit = kw.value
+            call.keywords.remove(kw)
+    unlimited = limit is None or (isinstance(limit, ast.Constant) and limit.value == 0)
     shape = ast.unparse(expr).replace(repr(pattern), "PATTERN")
     if ast.unparse(ast.parse(shape, mode="eval")) != ast.unparse(ast.parse(KEY_SHAPE, mode="eval")):
         raise SpecInapplicable(f"name_natural_key has a different shape: {shape}")
@@ -44,6 +57,7 @@ def _key_obligations(mi, fn):
     except regex.Unsupported as e:
         raise SpecInapplicable(f"pattern outside the supported regex subset: {e}")
     out = []
+    out.append(("post", "split-has-no-limit", [], z3.BoolVal(unlimited)))
     t = z3.String("token")
     digits = z3.Plus(z3.Range("0", "9"))
     # re.split with exactly one capturing group: the result alternates text, group, text, ... so that the odd
